@@ -6,6 +6,8 @@ CONSTANTS
   TamperMode = "none"
   TamperVariants = {}
   TamperAllVariants = {}
+  HoldMode = "singles"
+  Aliased = {}
   HelperKeyMax = 300
   HelperTexts = {0, 1, 55, 64, 150}
 VIEW View
